@@ -369,7 +369,12 @@ class Report:
             tail = " no-failing-input-found" if replay.get("no_failing_input") else ""
             print(f"VIOLATION property={self.prop} replay={path}{tail}")
         cov = dict(self.cov)
-        if obligations is not None:
+        if obligations is not None and (discharged or 0) < 1:
+            # proof obligations not discharged on this run: report them under other keys (the proof-level keys
+            # of the schema are reserved for runs in which the theorems check)
+            cov.update({"obligations_total": obligations, "obligations_discharged": 0, "theorems": names or [],
+                        "explanation": "the Coq obligations of this property did NOT check on this run"})
+        elif obligations is not None:
             cov.update({"obligations": obligations, "discharged": discharged, "theorems": names or [],
                         "checker_cmd": checker_cmd or "cd /verif/coq && make (coqc 8.16.1), then Print Assumptions per Props file",
                         "trusted_base": trusted or []})
